@@ -18,12 +18,13 @@ RULE = ("Hypothesis-generated project states (sources in nested packages + a con
         "task-output dirs inside cond-out). The state is copied once per directory; the same command runs in-process with that "
         "cwd, frozen harness clock, virtual kernel for `run`. Metamorphic oracle against the copy run from the root: same exit "
         "status; same stdout/stderr after mapping each copy's root to <ROOT> and resolving printed relative paths against the "
-        "cwd they were printed for; same resulting tree (names, types, bytes), rows and spawn log. Non-trivial = cwd != root and "
+        "cwd they were printed for; same resulting tree (names, types, bytes), rows and spawn log. Additionally an inner project (own cond_config.toml) is planted below a directory of the outer one: commands run at and below "
+        "it must act on the inner root only (nearest ancestor). Non-trivial = cwd != root and "
         "the command has an observable effect or prints a location. Distinct = SHA-1 of case JSON.")
 ASSUMPTIONS = ["task identifiers on the command line are absolute (//pkg:name); output paths given with -o / restore are absolute",
                "`where -p` prints a path relative to the project root by definition, so it must be literally identical from every directory"]
 ESSENTIAL = ["cwd_in_cond_out", "cwd_pkg_depth>=2", "cwd_no_cond_file", "gc_with_work", "gc_dry_run_with_work",
-             "archive_default_output", "where_relative", "run", "restore", "clean"]
+             "archive_default_output", "where_relative", "run", "restore", "clean", "inner_project"]
 TECHNIQUE = "metamorphic property testing (Hypothesis): identical project copies, same command from every directory, outputs compared modulo root/relative-path rendering"
 LEVEL_TEXT = "Randomised search over project states and commands; every existing directory of the project is used as cwd (exhaustive over directories per case)."
 LEVEL_NOTE = "Trusted: path normalisation rules in this file; vf/trees.py."
@@ -212,6 +213,33 @@ def _run(case, work):
             labels.add("cwd_pkg_depth>=2")
         if d.startswith("docs"):
             labels.add("cwd_no_cond_file")
+    # nearest-ancestor rule: an inner project (own cond_config.toml) nested in a directory of the outer one
+    inner = os.path.join(work, "copy0", "docs", "inner")
+    if os.path.isdir(os.path.join(work, "copy0")) and name != "clean":
+        os.makedirs(os.path.join(inner, "sub", "deep"), exist_ok=True)
+        with open(os.path.join(inner, "cond_config.toml"), "w") as f:
+            f.write("disable_git = true\n")
+        with open(os.path.join(inner, "COND"), "w") as f:
+            f.write("run_command(name='inner_task', run='true')\n")
+        with open(os.path.join(inner, "sub", "COND"), "w") as f:
+            f.write("run_command(name='sub_task', run='true')\n")
+        outer_before = trees.snapshot(os.path.join(work, "copy0"), skip=("docs/inner",))
+        for cwd_rel in ("", "sub", "sub/deep"):
+            cwd_i = os.path.join(inner, cwd_rel)
+            r1 = run_cond(inner, ["where", "-f", "//:inner_task"], cwd=cwd_i)
+            want = os.path.join(inner, "cond-out", "inner_task.task")
+            got = r1["stdout"].decode().strip()
+            if r1["status"] != 0 or os.path.normpath(got) != want:
+                v.append(("inner_project_root_not_nearest", "from %s inside an inner project: where -f //:inner_task -> status %r %r, expected %r" % (
+                    cwd_rel or ".", r1["status"], got or r1["stderr"].decode()[-200:], want)))
+            r2 = run_cond(inner, ["run", "//sub:sub_task"], cwd=cwd_i, kspec={"clock": clock})
+            sp = [e for e in r2["events"] if e["e"] == "spawn"]
+            if r2["status"] != 0 or not sp or not sp[0]["env"]["COND_OUT"].startswith(os.path.join(inner, "cond-out", "sub") + os.sep):
+                v.append(("inner_project_run_wrong_root", "from %s inside an inner project: run //sub:sub_task -> status %r, COND_OUT %r" % (
+                    cwd_rel or ".", r2["status"], sp[0]["env"]["COND_OUT"] if sp else None)))
+        if trees.snapshot(os.path.join(work, "copy0"), skip=("docs/inner",)) != outer_before:
+            v.append(("inner_project_touched_outer", "commands run inside the inner project changed the outer project"))
+        labels.add("inner_project")
     ref = results[0]
     what = " ".join(argv[:1] + [a for a in argv[1:] if not a.startswith(work)])
     if ref["uncaught"]:
